@@ -309,8 +309,33 @@ def default_inventory():
     global _INVENTORY
     if _INVENTORY is None:
         from harness.extract import link as x_link
-        _INVENTORY = x_link.iface_methods()
+        try:
+            _INVENTORY = x_link.iface_methods()
+        except Exception:
+            # the extractor does not recognise some method any more (reported by `extract:Link`): the search stage still has to
+            # run, so the classes to wrap are read from the imported classes instead
+            _INVENTORY = runtime_fallback_inventory()
     return _INVENTORY
+
+
+def runtime_fallback_inventory():
+    import inspect
+    runtime, classes = runtime_iface_methods()
+    by_name = {(c.__name__, c.__module__.split(".")[-1] + ".py"): c for c in classes}
+    out = []
+    for cname, fname, method in sorted(runtime):
+        try:
+            src = inspect.getsource(by_name[(cname, fname)].__dict__[method])
+        except Exception:
+            src = ""
+        if method == "send_frame":
+            steps = ["enabled", "?"] if ("transmit" in src) else ["stub"]
+        elif method == "enable":
+            steps = ["set"] if "self.enabled = True" in src else ["super"]
+        else:
+            steps = ["clear"] if "self.enabled = False" in src else ["super"]
+        out.append((cname, fname, method, steps))
+    return out
 
 
 def runtime_iface_methods():
@@ -1018,7 +1043,9 @@ def run_impl(case: dict, inventory=None) -> dict:
             if e["load1"] is not None and e["load1"] > cap:
                 oracle.append({"kind": "load-exceeds-bandwidth", "op": oi, "medium": medium, "k": e["k"], "load": e["load1"], "cap": cap,
                                "nested": bool(e["children"])})
-            if e["tx"] and e["sc"] != e["sa"]:
+            if e["tx"] and e["sc"] is None:
+                oracle.append({"kind": "frame-transmitted-without-an-admission-test", "op": oi, "medium": medium, "k": e["k"], "size": e["sa"]})
+            elif e["tx"] and e["sc"] != e["sa"]:
                 oracle.append({"kind": "admitted-size-differs-from-loaded-size", "op": oi, "medium": medium, "sc": e["sc"], "sa": e["sa"]})
             if e["tx"] and e["t"] == "S" and not (e["enS"] and e["enR"]):
                 oracle.append({"kind": "frame-crossed-a-down-link", "op": oi, "medium": medium, "k": e["k"]})
